@@ -51,8 +51,8 @@ var c02Pool = []string{
 // values tried in addition to c02Values for one pattern
 var c02Extra = map[string][]string{
 	`/rp/{p:(?:\d{4})-(?:0[1-9]|1[0-2])}`: {"2024-07", "2024-13", "2024-1", "024-07", "2024-07x"},
-	`/tk/{t:(?:[a-z]+)(?:\d+)}/k`:          {"abc123", "a1", "abc", "1a", "ab12c"},
-	`/pic/{kind:(?:jpe?g)|(?:png)}/x`:       {"jpg", "jpeg", "png", "jpgXYZ", "pn", "xpng"},
+	`/tk/{t:(?:[a-z]+)(?:\d+)}/k`:         {"abc123", "a1", "abc", "1a", "ab12c"},
+	`/pic/{kind:(?:jpe?g)|(?:png)}/x`:     {"jpg", "jpeg", "png", "jpgXYZ", "pn", "xpng"},
 }
 
 var c02Values = []string{"1", "20", "ab", "a.b", "é", "a b", "0", "a/b", "", "2024", "x.css", "1.0", "007", "123"}
@@ -62,12 +62,12 @@ type c02Case struct {
 	Cache   int    `json:"cache"` // 0 = caching disabled
 	First   string `json:"first_path"`
 	Strict  bool   `json:"strict_last_slash,omitempty"`
-	Twin    string `json:"twin,omitempty"`          // "", "before", "after": a same-shape route with other variable names under POST
-	Head    bool   `json:"head_requests,omitempty"` // the history is requested with HEAD (served by the GET route)
-	Redisp  bool   `json:"redispatch,omitempty"`    // the route's handler re-dispatches (HandleContext) to a static and to another dynamic route
-	Enc     bool   `json:"use_encoded_path,omitempty"` // the router matches the ESCAPED request path (UseEncodedPath): the handlers see the escaped substrings
+	Twin    string `json:"twin,omitempty"`                 // "", "before", "after": a same-shape route with other variable names under POST
+	Head    bool   `json:"head_requests,omitempty"`        // the history is requested with HEAD (served by the GET route)
+	Redisp  bool   `json:"redispatch,omitempty"`           // the route's handler re-dispatches (HandleContext) to a static and to another dynamic route
+	Enc     bool   `json:"use_encoded_path,omitempty"`     // the router matches the ESCAPED request path (UseEncodedPath): the handlers see the escaped substrings
 	Mut     bool   `json:"handler_edits_params,omitempty"` // the route's handler edits the Params map it was given, after reading it
-	Dump    bool   `json:"dump_routes,omitempty"`   // the router's read-only inspection API (String, Routes, IterateRoutes, NamedRoutes) is called between registration and the requests and again between them
+	Dump    bool   `json:"dump_routes,omitempty"`          // the router's read-only inspection API (String, Routes, IterateRoutes, NamedRoutes) is called between registration and the requests and again between them
 }
 
 var c02VarName = regexp.MustCompile(`\{([a-z]+)`)
@@ -174,9 +174,9 @@ func c02Gen(tier string, emit func(c02Case)) {
 	for _, pat := range c02Pool {
 		paths := c02PathCache[pat]
 		stride := 1
-		if tier == "quick" && len(paths) > 35 {
+		if tier == "quick" && len(paths) > 28 {
 			// quick: every path is still requested (as q) against a spread of first paths
-			stride = len(paths) / 35
+			stride = len(paths) / 28
 		}
 		for _, cc := range caches {
 			for i := 0; i < len(paths); i += stride {
@@ -450,7 +450,7 @@ var c02Spec = fw.Spec[c02Case]{
 		for _, p := range c02Pool {
 			n += len(c02PathCache[p])
 		}
-		return map[string]any{"patterns": len(c02Pool), "values": len(c02Values), "candidate_paths_total": n, "cache": "off,1,2", "first_path_stride": map[string]string{"quick": "<=~35 first paths per pattern (every path is still used as q)", "thorough": "all"}[tier]}
+		return map[string]any{"patterns": len(c02Pool), "values": len(c02Values), "candidate_paths_total": n, "cache": "off,1,2", "first_path_stride": map[string]string{"quick": "<=~28 first paths per pattern (every path is still used as q)", "thorough": "all"}[tier]}
 	},
 	Gen:   c02Gen,
 	Run:   c02Run,
